@@ -201,7 +201,13 @@ func (c12) runOn(g *spec.Grammar, what string, injected bool, idx int) Outcome {
 			g.NTs[i].Tag = ""
 		}
 	}
-	text := render.Render(g, plainParts, render.Options{})
+	// every second case is written with a random layout (optional ';', '|' vs repeated lhs, comments,
+	// reordered declarations): whether a grammar is usable must not depend on how it is spelled
+	var ro render.Options
+	if idx >= 0 && idx%2 == 1 {
+		ro.Rng = rand.New(rand.NewSource(int64(idx)*7919 + 13))
+	}
+	text := render.Render(g, plainParts, ro)
 	o := Outcome{Status: "held", Replay: map[string]interface{}{"grammar": text, "what": what}}
 	usable, why := usableRef(g)
 	if usable {
